@@ -183,9 +183,23 @@ def lean(repo):
                 if depth == 0:
                     break
                 depth -= 1
-        head = hf[max(0, k - 200):k]
-        cm_ = re.search(r"if\s*\((.*)\)\s*$", head, re.S)
-        cond = cm_.group(1) if cm_ else ""
+        # the condition of the `if (...) {` that opens this block: the parenthesis that closes right in front of the brace
+        e = k
+        while e > 0 and hf[e - 1].isspace():
+            e -= 1
+        cond = ""
+        if e > 0 and hf[e - 1] == ")":
+            b, par = e - 1, 0
+            while b >= 0:
+                if hf[b] == ")":
+                    par += 1
+                elif hf[b] == "(":
+                    par -= 1
+                    if par == 0:
+                        break
+                b -= 1
+            if b > 0 and re.search(r"\bif\s*$", hf[:b]):
+                cond = hf[b + 1:e - 1]
         if re.fullmatch(r"\s*last_frame\s*", cond):
             clears_last += 1
         elif "opcode" in cond:
